@@ -53,5 +53,12 @@ func H_C05_header() {
 	g.SecurityFeatures = r
 	raw, err := g.Marshal()
 	vCheck(err == nil && vBytesEq(raw, ref), "C05/header/encoding-equals-the-reference-encoding")
+	// a 32-bit PID set through the accessor reaches the wire as PIDHigh (offset 12) and PIDLow (offset 26), both little-endian
+	pid := vU32("pid32")
+	g.SetPID(pid)
+	c05put16(ref, 12, uint16(pid>>16))
+	c05put16(ref, 26, uint16(pid))
+	raw, err = g.Marshal()
+	vCheck(err == nil && vBytesEq(raw, ref), "C05/header/SetPID-encoding-equals-the-reference-encoding")
 	vCover("end")
 }
